@@ -15,6 +15,8 @@ import PromModel.Suites.HistSuite
           the first returned sample — finding C12-F1).
   judge:  `hint_sound_query`'s predicate (`Prom.Hist.unsoundAt`) on what the real code returned —
           independent of the model — plus: the query returns exactly the accepted samples.
+          A persist op (dflush/dooo/dcompact) that failed re-encoding a chunk (`<op> reencode-failed`)
+          is an observation on the input shape of finding C11-F1 (`gaugeStaleShape`), `op-failed` otherwise.
 -/
 namespace Prom.HintSuite
 open Prom.Hist Prom.HistSuite
@@ -90,12 +92,27 @@ def parseSemSamples? (s : String) : Option (List (Int × Hist)) :=
     | [t, h] => do let (hint, sem) ← parseSem? h; pure (← t.toInt?, histOfSem hint sem)
     | _ => none
 
+/-! ### persist ops whose chunk re-encoding failed (observation, finding C11-F1) -/
+
+/-- The input shape of finding C11-F1: a gauge staleness marker was accepted after an earlier non-stale
+    gauge histogram of the same flavour.  The marker lands inside the gauge chunk (head chunk, or the chunk
+    `ToEncodedChunks` builds for the OOO head), is read back as `{Sum: StaleNaN}` with hint Unknown, and
+    the append-only re-encoding of that chunk (`populateCurrForSingleChunk`: open head chunk, or any chunk
+    cut by a block boundary / tombstone) is refused by the gauge chunk's appender. -/
+def gaugeStaleShape (acc : List (Int × Hist)) : Bool :=
+  acc.any fun p => p.2.stale && p.2.hint == .gauge &&
+    acc.any fun q => decide (q.1 < p.1) && !q.2.stale && q.2.hint == .gauge && q.2.float == p.2.float
+
+def persistOp (op : String) : Bool := op = "dflush" || op = "dooo" || op = "dcompact"
+
 /-! ### model -/
 
 structure St where
   srcs : List (List Chunk) := []
   /-- accepted samples, sorted by time -/
   accepted : List (Int × Hist) := []
+  /-- a `dcfg` line was seen (the harness answers `no-db` to DB ops of an op list without one) -/
+  db : Bool := false
 deriving Inhabited
 
 def insertSorted (x : Int × Hist) : List (Int × Hist) → List (Int × Hist)
@@ -129,6 +146,7 @@ def semSamplesStr (l : List (Int × Hist)) : String :=
   if l.isEmpty then "-" else ";".intercalate (l.map fun p => s!"{p.1}={semStr p.2.hint p.2.sem}")
 
 def step (st : St) (line : String) : St × String :=
+  if (match toks line with | op :: _ => op.startsWith "d" && op != "dcfg" | [] => false) && !st.db then (st, "no-db") else
   match toks line with
   | ["sapp", si, cut, t, h] =>
     match si.toNat?, t.toInt?, parseHist? h with
@@ -157,7 +175,7 @@ def step (st : St) (line : String) : St × String :=
       | some l => (st, samplesStr l)
       | none => (st, "merge-failed")
     | none => (st, "bad-op")
-  | ["dcfg", _, _] => (st, "ok")
+  | ["dcfg", _, _] => ({ st with db := true }, "ok")
   | ["dapp", t, h, adm] =>
     match t.toInt?, parseHist? h with
     | some t, some h => (if adm = "ok" then { st with accepted := insertSorted (t, h) st.accepted } else st, adm)
@@ -166,6 +184,10 @@ def step (st : St) (line : String) : St × String :=
   | ["dooo"] => (st, "ok")
   | ["dcompact"] => (st, "ok")
   | ["dreopen"] => (st, "ok")
+  | [op, "reencode-failed"] =>
+    -- observed outcome (oracle): possible for the model only on the input shape of finding C11-F1; nothing
+    -- was persisted, the accepted samples stay where they were
+    (st, if persistOp op && gaugeStaleShape st.accepted then "err-reencode" else "ok")
   | ["dq", mint, maxt, hints] =>
     match mint.toInt?, maxt.toInt? with
     | some mint, some maxt =>
@@ -231,6 +253,11 @@ def verdict (acc : List (Int × Hist)) : Nat → List String → List String →
           | some i => some s!"violation hint-unsound-query op={k} sample={i}"
           | none => verdict acc (k + 1) ops outs
       | _, _, _ => some s!"violation unparsable op={k} {(out.take 60).toString}"
+    | [pop, "reencode-failed"] =>
+      -- a failed persist op is outside the statement (hints of returned samples); it is an observation
+      -- exactly on the input shape of finding C11-F1, anything else is a failed op
+      if persistOp pop && out = "err-reencode" && gaugeStaleShape acc then verdict acc (k + 1) ops outs
+      else some s!"violation op-failed op={k} {pop} {out}"
     | _ =>
       if out.startsWith "err" ∨ out.startsWith "panic" then some s!"violation op-failed op={k} {out}"
       else verdict acc (k + 1) ops outs
